@@ -1,19 +1,24 @@
 From Coq Require Import Reals Lra.
 From Interval Require Import Tactic.
 Open Scope R_scope.
+(* as the translator would emit them from heat_exchanger.py (counter-flow branch, c <> 1) *)
 Definition eff_cf (N c : R) : R := (1 - exp (- N * (1 - c))) / (1 - c * exp (- N * (1 - c))).
 Definition ntu_cf (e c : R) : R := 1 / (1 - c) * ln ((1 - e * c) / (1 - e)).
-Goal Rabs (eff_cf 2 (1/2) - 0.7746) <= 1/1000.
-Proof. unfold eff_cf. interval. Qed.
+(* numeric tie of the translation to the running implementation: HX_Eff("Counter Flow", 2, 0.5) = 0.7746003264394359 *)
+Goal Rabs (eff_cf 2 (1/2) - 0.7746003264394359) <= 1/1000000000.
+Proof. unfold eff_cf. interval with (i_prec 60). Qed.
 Lemma roundtrip_cf N c : 0 < N -> 0 <= c < 1 -> ntu_cf (eff_cf N c) c = N.
 Proof.
   intros HN Hc. unfold ntu_cf, eff_cf.
-  set (e := exp (- N * (1 - c))).
+  assert (Hp : 0 < N * (1 - c)) by (apply Rmult_lt_0_compat; lra).
+  replace (- N * (1 - c)) with (- (N * (1 - c))) by ring.
+  set (x := N * (1 - c)) in *. set (e := exp (- x)).
   assert (He : 0 < e) by apply exp_pos.
-  assert (He1 : e < 1). { unfold e. rewrite <- exp_0. apply exp_increasing. assert (0 < N * (1 - c)) by (apply Rmult_lt_0_compat; lra). lra. }
-  assert (Hd : 1 - c * e > 0) by nra.
+  assert (He1 : e < 1). { unfold e. rewrite <- exp_0. apply exp_increasing. lra. }
+  assert (Hce : c * e < 1). { assert (c * e <= 1 * e) by (apply Rmult_le_compat_r; lra). lra. }
   replace ((1 - (1 - e) / (1 - c * e) * c) / (1 - (1 - e) / (1 - c * e))) with (/ e).
-  2:{ field. repeat split; nra. }
-  rewrite ln_Rinv by exact He. unfold e. rewrite ln_exp. field. nra.
+  assert (Hec : 0 < e * (1 - c)) by (apply Rmult_lt_0_compat; lra).
+  2:{ field. repeat split; try lra; nra. }
+  rewrite ln_Rinv by exact He. unfold e. rewrite ln_exp. unfold x. field. lra.
 Qed.
 Print Assumptions roundtrip_cf.
